@@ -11,5 +11,6 @@ const Enabled = false
 // Point is a cooperative scheduling point (no-op in normal builds).
 func Point(site string, arg interface{}) {}
 
-// Crit is called right before a fatal log exits the process (no-op in normal builds).
-func Crit(msg string) {}
+// Crit is called right before a fatal log exits the process (always false in
+// normal builds: the process exits).
+func Crit(msg string) bool { return false }
